@@ -123,7 +123,7 @@ Proof.
     + apply IH; lia.
 Qed.
 
-Lemma pathport_bounded n st : n <= PP_PACKET_SIZE -> bounded n (pathport_handle n st).
+Lemma pathport_bounded_any n st : n <= 2147483647 -> bounded n (pathport_handle n st).
 Proof.
   intros Hn. unfold pathport_handle, PP_D, PP_PACKET_SIZE, PP_HEADER_SIZE, PP_PDU_HEADER_SIZE, PP_PDU_DATA_SIZE,
     PP_OFF_protocol, PP_OFF_version_major, PP_OFF_version_minor, PP_OFF_destination, PP_OFF_pdu, PP_OFF_pdu_type,
@@ -133,7 +133,8 @@ Proof.
   apply bounded_bind; [|intros a; constructor].
   repeat match goal with H : (_ <? _) = false |- _ => apply N.ltb_ge in H end.
   rewrite (usub32_small (n - 20 - 4) 8) by lia.
-  rewrite u16_id by lia.
+  assert (H16 : u16 (n - 20 - 4 - 8) <= n - 20 - 4 - 8) by (unfold u16; apply N.mod_le; discriminate).
+  assert (H16b : u16 (n - 20 - 4 - 8) < 65536) by apply u16_lt.
   apply pp_loop_bounded.
   - lia.
   - lia.
@@ -143,3 +144,7 @@ Proof.
   - change (N.of_nat PP_LOOP_FUEL) with 129. unfold PP_MAX_UNIVERSES.
     match goal with |- context [?q / ?d] => generalize (q / d); intros end. lia.
 Qed.
+
+(* for the capacity of the real receive buffer *)
+Lemma pathport_bounded n st : n <= PP_PACKET_SIZE -> bounded n (pathport_handle n st).
+Proof. intros Hn. apply pathport_bounded_any. unfold PP_PACKET_SIZE in Hn. lia. Qed.
